@@ -236,9 +236,9 @@ def run(ctx):
     model_check(ctx, "c29_j1c", NS=1, NI=2, L=5, max_muts=0)
     refute_impl(ctx, "c29_j1i", NS=2, NI=1, L=3, max_muts=1)
     if not q:
-        model_check(ctx, "c29_j1d", NS=2, NI=2, L=3, max_muts=1)
+        model_check(ctx, "c29_j1d", NS=2, NI=2, L=3, max_muts=1, tree_filter="nodangling")
         model_check(ctx, "c29_j1e", NS=2, NI=1, L=5, max_muts=1)
-        model_check(ctx, "c29_j1f", NS=2, NI=2, L=2, max_muts=2, hist=True)
+        model_check(ctx, "c29_j1f", NS=2, NI=2, L=2, max_muts=1, hist=True)
         model_check(ctx, "c29_j1g", NS=1, NI=3, L=3, max_muts=0, anytie=True)
     insts = generate(ctx, "c29_j2a", NS=2, NI=1, L=3, max_muts=1 if q else 2)
     insts += generate(ctx, "c29_j2b", NS=2, NI=2, L=2, max_muts=1)
@@ -246,7 +246,7 @@ def run(ctx):
     if not q:
         insts += generate(ctx, "c29_j2d", NS=2, NI=1, L=5, max_muts=1)
         insts += generate(ctx, "c29_j2e", NS=2, NI=2, L=2, max_muts=1, hist=True)
-    cap = 5000 if q else 80000
+    cap = 5000 if q else 40000
     ctx.exhaustive = len(insts) <= cap
     if len(insts) > cap:
         insts = ctx.rng.sample(insts, cap)
